@@ -14,7 +14,7 @@ a named lemma (then check reports per DESIGN §3.1).
 import os, re, sys
 
 REPO = os.environ.get("VERIF_REPO", "/repo")
-OUT = os.path.join(os.path.dirname(os.path.abspath(__file__)), "..", "lean", "SuxModel", "Gen", "Consts.lean")
+OUT = os.path.join(os.environ.get("VERIF_LEAN_DIR") or os.path.join(os.path.dirname(os.path.abspath(__file__)), "..", "lean"), "SuxModel", "Gen", "Consts.lean")
 
 
 def num(s):
